@@ -1392,6 +1392,11 @@ func marshalQueryValue(typ TypeInfo, value interface{}, dst *queryValues) error 
 
 		dst.value = val
 	} else {
+		if typ.Version() < protoVersion4 {
+			// before protocol 4 a negative length can only say null: sending "not set"
+			// would write a null (a tombstone) where the caller asked to leave the column alone
+			return errors.New("gocql: UnsetValue is not supported by protocol versions below 4")
+		}
 		dst.isUnset = true
 	}
 
